@@ -142,7 +142,11 @@ def check_code(spec, tier, res, enc=None):
         words = list(range(1 << n))
     else:
         base = [c for c in produced[:6]] + [produced[-1]]
-        pats = [0] + [1 << i for i in range(n)] + [(1 << i) | (1 << j) for i in range(n) for j in range(i)]
+        if n <= 64:
+            pats = [0] + [1 << i for i in range(n)] + [(1 << i) | (1 << j) for i in range(n) for j in range(i)]
+        else:   # long codes: every single position, and pairs (i, i-1), (i, i//2), (i, 0); three base codewords
+            base = [produced[0], produced[len(produced) // 2], produced[-1]]
+            pats = [0] + [1 << i for i in range(n)] + [(1 << i) | (1 << j) for i in range(1, n) for j in {i - 1, i // 2, 0}]
         words = sorted({c ^ e for c in base for e in pats})
     basis_pub = gf2.rref(code.G)
     chunk = 1 << 14
